@@ -54,7 +54,7 @@ C13Cases == {SetSeq(s) : s \in SUBSET Rewrites} \cup {<<"cmtmid">>} \cup {<<"cmt
             \cup {<<"nsup">>, <<"nsup", "pfx">>, <<"nsup", "attr">>}
 
 (* C10: every text-valued parameter x every string of up to K1 character classes *)
-Params == {"persist", "persist-id", "cancel-persist-id", "log", "log-after-failed-write", "instance", "xpath", "xpath-get", "url-edit", "url-delete", "url-host",
+Params == {"persist", "persist-id", "persist-id-with-persist", "persist-with-persist-id", "cancel-persist-id", "log", "log-after-failed-write", "instance", "xpath", "xpath-get", "url-edit", "url-delete", "url-host",
            "text-config", "json-config", "set-config", "subtree-filter", "edit-fragment", "copy-fragment", "edit-opaque", "load-opaque"}
 Classes == {"plain", "lt", "gt", "amp", "quot", "apos", "delim", "nonascii", "space",
             (* values a "normaliser" would rewrite *)
